@@ -167,8 +167,48 @@ def rule_elig(ctx) -> None:
                         return ast.Subscript(value=v0, slice=ast.Constant(value="*"), ctx=ast.Load())
             return None
 
+        def draws_from_list_param(e: ast.AST) -> Optional[ast.AST]:
+            """extract-function refactor: `helper(.., eligible, ..)` where every return of helper is None / '' or a name bound only
+            by `for <name> in <that parameter>` (or initialised to None): an element of `eligible` (or a falsy nothing)"""
+            if not isinstance(e, ast.Call):
+                return None
+            rr = ctx.prog.callee(fn, e)
+            h = ctx.prog.funcs.get(rr[1]) if rr and rr[0] == "func" else None
+            if h is None:
+                return None
+            idx = [i for i, a in enumerate(e.args) if isinstance(a, ast.Name) and a.id == elig]
+            if len(idx) != 1 or idx[0] >= len(h.params):
+                return None
+            P = h.params[idx[0]]
+            hrd, hcfg = ctx.rd(h), ctx.cfg(h)
+            if any(d.name == P and d.kind != "param" for d in hrd.all_defs):
+                return None
+            n_ret = 0
+            for hn in hcfg.nodes:
+                if hn.kind != "stmt" or not isinstance(hn.ast, ast.Return) or hn.ast.value is None:
+                    continue
+                n_ret += 1
+                v = hn.ast.value
+                if isinstance(v, ast.Constant) and v.value in (None, ""):
+                    continue
+                if not isinstance(v, ast.Name):
+                    return None
+                for d in [d for d in hrd.reaching(v.id, hn) if d.kind != "mutate"]:
+                    if d.kind == "for" and d.value is not None and src(d.value) == P:
+                        continue
+                    if d.value is not None and isinstance(d.value, ast.Constant) and d.value.value is None:
+                        continue
+                    if d.kind == "assign" and isinstance(d.value, ast.Name):
+                        ds2 = [x for x in hrd.reaching(d.value.id, d.node) if x.kind != "mutate"]
+                        if ds2 and all(x.kind == "for" and x.value is not None and src(x.value) == P for x in ds2):
+                            continue
+                    return None
+            if not n_ret:
+                return None
+            return ast.Subscript(value=ast.Name(id=elig, ctx=ast.Load()), slice=ast.Constant(value="*"), ctx=ast.Load())
+
         expand(agent, r)
-        cands = [through_helper(c, r) or c for c in cands]
+        cands = [through_helper(c, r) or draws_from_list_param(c) or c for c in cands]
         ok = True
         why = []
         for c in cands:
@@ -487,6 +527,17 @@ def rule_clamp(ctx) -> None:
         if f is None:
             continue
         ok, how = _flows_into_min(f, ctx.rd(f), "t3_ops")
+        if not ok:
+            # extract-function refactor: the cap may be read and clamped in a helper whose result the planner then uses
+            for c in walk_no_defs(f.node):
+                if ok or not isinstance(c, ast.Call):
+                    continue
+                r = ctx.prog.callee(f, c)
+                if r and r[0] == "func" and r[1] in ctx.prog.funcs and r[1] != f.qual:
+                    h = ctx.prog.funcs[r[1]]
+                    ok2, how2 = _flows_into_min(h, ctx.rd(h), "t3_ops")
+                    if ok2:
+                        ok, how = True, f"{h.name}(): {how2}"
         ctx.check(ok, "C17.CLAMP", f"{f.qual}/t3_ops", f.loc(), f"slice cap t3_ops bounds the plan via {how}", f"slice cap t3_ops: {how}")
     b = ctx.func("clematis.engine.stages.t3.bundle:make_plan_bundle")
     if b is not None:
